@@ -1122,7 +1122,8 @@ decl(struct scope *s, struct func *f)
 						error(&tok.loc, "parameter '%s' of function definition has incomplete type", p->name ? p->name : "");
 				}
 				/* re-open scope from function declarator */
-				assert(funcscope);
+				if (!funcscope)
+					error(&tok.loc, "function definition must have a function declarator");
 				s = funcscope;
 				f = mkfunc(d, name, t, s);
 				stmt(f, s);
